@@ -395,19 +395,20 @@ class Interp:
         res = []
         c0 = self.specs.get(st.frame.funcqual) if self.specs is not None else None
         merge = c0 is not None and c0.opts.get("merge_branches") and not self.bounded
+        npc0 = len(st.pc)
+        env0, heap0 = dict(st.env), dict(st.heap)
+        allsub = []
         for s, c in self.eval(node.test, st):
             if isinstance(c, Exc):
                 res.append((s, ("exc", c)))
                 continue
-            npc = len(s.pc)
-            env_before, heap_before = dict(s.env), dict(s.heap)
-            sub = []
             for s2, b in self.branch(s, lib.truthy(self, s, c)):
                 self.narrow(node.test, s2, b)
-                sub.extend(self.exec_block(node.body if b else node.orelse, s2))
-            if merge:
-                sub = self.merge_outcomes(sub, npc, env_before, heap_before)
-            res.extend(sub)
+                allsub.extend(self.exec_block(node.body if b else node.orelse, s2))
+        if merge:
+            # (a test with `and` / `or` reaches the branches along several paths: all normal outcomes are joined)
+            allsub = self.merge_outcomes(allsub, npc0, env0, heap0)
+        res.extend(allsub)
         return res
 
     def merge_outcomes(self, outs, npc, env_before, heap_before):
@@ -417,6 +418,18 @@ class Interp:
         join describes nothing else.  Anything that does not fit (writes to existing objects, non-numeric differences, ghost
         differences, exceptional outcomes) is left as separate paths."""
         normal = [(s, ctl) for s, ctl in outs if ctl is None]
+        if len(normal) > 2:
+            # a test with `and` / `or` reaches a branch along several paths: join them two at a time
+            rest = [(s, ctl) for s, ctl in outs if ctl is not None]
+            cur = normal
+            for _ in range(len(normal)):
+                if len(cur) < 2:
+                    break
+                merged = self.merge_outcomes(cur[:2], npc, env_before, heap_before)
+                if len(merged) != 1:
+                    break
+                cur = merged + cur[2:]
+            return rest + cur
         if len(normal) != 2:
             return outs
         (s1, _), (s2, _) = normal
@@ -431,14 +444,19 @@ class Interp:
                 return outs
         if repr(s1.ghost) != repr(s2.ghost):
             return outs
-        if set(s1.env) != set(s2.env):
+        if {k for k in s1.env if not k.startswith("__last")} != {k for k in s2.env if not k.startswith("__last")}:
             return outs
+        for k in set(s1.env) ^ set(s2.env):
+            s1.env.setdefault(k, None)
+            s2.env.setdefault(k, None)
         b = z3.Bool(fresh_name("join"))
         env = {}
         for k in s1.env:
             v1, v2 = s1.env[k], s2.env[k]
             if v1 is v2:
                 env[k] = v1
+            elif k.startswith("__last"):
+                env[k] = None            # `last_result` is not available after a join of branches that made different calls
             elif isinstance(v1, Num) and isinstance(v2, Num) and v1.kind == v2.kind:
                 env[k] = v1 if v1.t.eq(v2.t) else Num(z3.If(b, v1.t, v2.t), v1.kind)
             elif isinstance(v1, Num) and isinstance(v2, Num) and {v1.kind, v2.kind} == {"int", "real"}:
